@@ -52,11 +52,16 @@ ValidTree(x) ==
 \*       to_string (ownok = FALSE) and still rejects an invalid child (addok = FALSE)
 \*   unchecked-inner: a checked, complete root holding an unchecked child that carries arbitrary children:
 \*       the root serialises; the unchecked child is exempt and accepts anything (addok = TRUE)
+\*   unchecked-inner-noattr: the same tree, the unchecked child built WITHOUT its required attributes: the exemption is the
+\*       element's own, so what it serialises alone (ownok) the checked tree around it serialises as well
 MixedClauses(e) ==
   LET ante == [C18_local |-> TRUE, C19_quiet |-> TRUE]
   IN [ante |-> ante, holds |-> [
    C18_local |-> IF e.variant = "unchecked-root"
                  THEN e.rootok /\ e.rooticok /\ ~e.ownok /\ ~e.addok /\ e.outw = e.insw
+                 ELSE IF e.variant = "unchecked-inner-noattr"
+                 \* the unchecked child lacks its required attributes: if it serialises alone, the checked tree around it does too
+                 THEN e.ownok => (e.rootok /\ e.rooticok)
                  ELSE e.rootok /\ e.rooticok /\ e.addok /\ e.outw = e.insw,    \* rooticok: to_string(intelligent_choice=True) of the root
    C19_quiet |-> Quiet(e.res) ]]
 
